@@ -261,6 +261,47 @@ def run_menu_case(item):
         shutil.rmtree(root, ignore_errors=True)
 
 
+def upstream_observer_case(item):
+    """the observer sits in a Flow whose datastream is consumed by ANOTHER Flow through load((descriptor, res_iter)): once that
+    consumer has drained everything, the observer has seen the complete stream and must have finished (descriptor / file
+    published, finalizer fired once)"""
+    import dataflows as DF
+    from dataflows import Flow
+    setup_repo()
+    okind, shape = item['obs'], item['shape']
+    root = tempfile.mkdtemp(prefix='c05u-', dir=tlc.WORK_ROOT)
+    try:
+        opath = os.path.join(root, 'obs')
+        fired = []
+        srcs = [[dict(a=k, b='r%d-%d' % (i, k)) for k in range(n)] for i, n in enumerate(shape)]
+        from ..common import tuple_source
+        src = tuple_source([('res%d' % i, [('a', 'integer'), ('b', 'string')], rows) for i, rows in enumerate(srcs)])
+        if okind in ('stream', 'dump_to_zip'):
+            os.makedirs(opath, exist_ok=True)
+        obs = {'dump_to_path': lambda: DF.dump_to_path(opath), 'dump_to_zip': lambda: DF.dump_to_zip(os.path.join(opath, 'o.zip')),
+               'stream': lambda: DF.stream(os.path.join(opath, 's.ndjson')), 'checkpoint': lambda: DF.checkpoint('cp', checkpoint_path=opath),
+               'finalizer': lambda: DF.finalizer(lambda: fired.append(1))}[okind]()
+        with contextlib.redirect_stdout(io.StringIO()), contextlib.redirect_stderr(io.StringIO()):
+            up = Flow(src, obs).datastream()
+            res, dp, _ = Flow(DF.load((up.dp.descriptor, up.res_iter), strip=False)).results()
+        if res != srcs:
+            return dict(ok=False, why='the consumer did not receive the stream', got=[len(x) for x in res])
+        if okind == 'finalizer':
+            return dict(ok=fired == [1], why='the finalizer fired %d times' % len(fired))
+        try:
+            persisted = read_back(okind, opath)
+        except Exception as e:
+            return dict(ok=False, why='what the observer persisted cannot be read back: %s: %s' % (type(e).__name__, str(e)[:120]))
+        want = [dict(name='res%d' % i, fields=['a', 'b'], rows=rows) for i, rows in enumerate(srcs)]
+        if persisted is not None and canon(persisted) != canon(want):
+            return dict(ok=False, why='what the observer persisted is not the full stream at its position', persisted=persisted)
+        return dict(ok=True)
+    except Exception as e:
+        return dict(ok=False, why='raised %s: %s' % (type(e).__name__, str(e)[:160]))
+    finally:
+        shutil.rmtree(root, ignore_errors=True)
+
+
 def model_printer(rep, t):
     wd = tlc.workdir('c05p')
     consts = {'MaxN': 60 if t == 'quick' else 130, 'Nums': '{1, 2, 3, 10}', 'Lasts': '{0, 1, 3}'}
@@ -403,6 +444,14 @@ def run():
         if not out['ok']:
             rep.violation(it, dict(case=it, **{k: v for k, v in out.items() if k != 'ok'}),
                           category='menu/%s/%s' % (it['obs'], out['why'][:50]))
+    uitems = [dict(upstream=True, obs=o, shape=sh) for o in ('dump_to_path', 'dump_to_zip', 'stream', 'checkpoint', 'finalizer') for sh in ([2], [0], [2, 0, 3])]
+    for it, out in zip(uitems, pmap(upstream_observer_case, uitems, chunksize=2)):
+        if '__harness_error__' in out:
+            raise tlc.MachineryError('harness error in upstream-observer cases: ' + out['__harness_error__'])
+        rep.count(1, traces=1)
+        rep.mark_distinct(it)
+        if not out['ok']:
+            rep.violation(it, dict(case=it, **{k: v for k, v in out.items() if k != 'ok'}), category='observer-upstream-of-load-tuple/%s' % it['obs'])
     pcases = model_printer(rep, t)
     if t == 'quick':
         r.shuffle(pcases)
@@ -436,7 +485,11 @@ def replay(path):
     setup_repo()
     rec = json.load(open(path))
     c = rec['case']
-    if 'printer' in c:
+    if c.get('upstream'):
+        out = upstream_observer_case(c)
+        print(json.dumps(out, default=str)[:2000])
+        bad = not out['ok']
+    elif 'printer' in c:
         out = printer_case(c['printer'])
         print(json.dumps(out, default=str)[:2000])
         bad = not out['ok']
